@@ -44,7 +44,7 @@ HARNESSES = [
          cases=[dict(id="region_n%d" % n, defines={"PART": 0, "NSPARSE": n, "__NO_CTYPE": None},
                      tier="quick") for n in (0, 1, 2, 3)] +
                [dict(id="accounting_n%d" % n, defines={"PART": 1, "NSPARSE": n, "__NO_CTYPE": None},
-                     tier="quick") for n in (0, 1, 2)] +
-               [dict(id="accounting_n3", defines={"PART": 1, "NSPARSE": 3, "__NO_CTYPE": None},
-                     tier="thorough")]),
+                     solver="cadical", tier="quick") for n in (0, 1)] +
+               [dict(id="accounting_n2", defines={"PART": 1, "NSPARSE": 2, "__NO_CTYPE": None},
+                     solver="cadical", tier="thorough", timeout=2400)]),
 ]
